@@ -112,6 +112,15 @@ def base_schema(rnd, mode):
     t(["top", "ping", "output"], "output", None)              # implicit
     # below an rpc or action there are input and output only: a path that leaves the step out, or puts something else
     # there, names nothing
+    # a path that leaves out a choice and/or case step in front of an existing node names nothing either
+    t(["top", "b"], "missing", None)              # for top/ch/cb/b
+    t(["top", "ch", "b"], "missing", None)
+    t(["top", "cb", "b"], "missing", None)
+    t(["top", "a"], "missing", None)              # shorthand member without choice and implied case
+    t(["top", "ch", "a", "b"], "missing", None)
+    t(["c1", "gs"], "missing", None)              # for c1/gch/gs/gs
+    t(["c1", "gz"], "missing", None)              # for c1/gch/gcs/gz
+    t(["c2", "gch", "gz"], "missing", None)
     t(["r", "ri"], "missing", None)
     t(["r", "rl", "v"], "missing", None)
     t(["r", "params", "input", "ri"], "missing", None)
@@ -732,6 +741,50 @@ def gen_cases(tier, seed):
             dm = [devmod("d1", devs[:cut]), devmod("d2", devs[cut:])]
         cases.append(case([b, a], dm, info=dict(g="grouping-leaflist-defaults")))
         hist["grouping_leaflist_defaults"] += 1
+    # --- deviations written in an INCLUDED SUBMODULE whose prefix table differs from that of the module including it:
+    #     the path is read with the submodule's own imports and belongs-to prefix
+    n_sub = 90 if not thorough else 1200
+    hist["submodule_prefixes"] = 0
+    for i in range(n_sub):
+        base, T = base_schema(rnd, rnd.choice([0, 1, 2, 2]))
+        real = [x for x in T if x["kind"] != "missing"]
+        variant = ["own-imports", "other-prefix", "clash", "belongs-prefix"][i % 4]
+        devs = []
+        for _ in range(rnd.choice([1, 2, 3])):
+            t = rnd.choice(real if rnd.random() < 0.9 else T)
+            if rnd.random() < 0.7:
+                prop = rnd.choice(["cfg", "mand", "default", "units"])
+                dvs = [deviate("replace", **{prop: {"cfg": rnd.random() < 0.5, "mand": rnd.random() < 0.5,
+                                                    "default": "sv", "units": "su"}[prop]})]
+            else:
+                dvs = [random_deviate(t, rnd) for _ in range(rnd.choice([1, 2]))]
+            devs.append((tpath(t), dvs))
+        sub = dict(mod("d1s", "d1", imports=[("b", "b"), ("a", "a")], deviations=devs), ns="", belongs="d1")
+        extra = []
+        if variant == "own-imports":
+            d1 = mod("d1", "d1")
+        elif variant == "other-prefix":
+            d1 = mod("d1", "d1", imports=[("bx", "b"), ("b2", "a")])
+        elif variant == "clash":
+            bb = dict(base[0], name="bb", prefix="bb", ns="urn:bb")
+            extra = [bb]
+            d1 = mod("d1", "d1", imports=[("b", "bb"), ("a", "a")])
+        else:
+            d1 = mod("d1", "d1", imports=[("b", "b")],
+                     body=[("container", "own", None, [("leaf", "ol", "string", None, None, "od", None),
+                                                      ("leaflist", "oll", "string", None, ["o1"], 1, None)])])
+            sub["prefix"] = "dd"
+            sub["deviations"] = devs + [("/dd:own/dd:ol", [rnd.choice([deviate("replace", default="nd"), deviate("delete", default="od"),
+                                                                          deviate("add", default="x")])]),
+                                        ("/dd:own/dd:oll", [rnd.choice([deviate("add", default="o2"), deviate("delete", min=1),
+                                                                           deviate("delete", max=MAXU64)])])]
+        d1["includes"] = ["d1s"]
+        sc = base + extra + [d1, sub]
+        if rnd.random() < 0.5:
+            sc = [sub, d1] + extra + base
+        cases.append(dict(base=None, dev=None, schema=sc, opts="n" if rnd.random() < 0.1 else "-",
+                          info=dict(g="submodule-prefixes", variant=variant)))
+        hist["submodule_prefixes"] += 1
     # --- typedef defaults (text level; the model has no typedefs): the node's OWN default statement decides, never the
     #     default its type chain carries
     hist["typedef_defaults"] = 0
@@ -1176,7 +1229,7 @@ def check_cases(res, cases, report=3):
 
 def strip(c):
     return dict(schema=full_schema(c), opts=c["opts"], info={k: v for k, v in c["info"].items() if not k.startswith("_")},
-                dev=[m["name"] for m in dev_modules(c)])
+                dev=[m["name"] for m in dev_modules(c)], schema_style=c.get("schema") is not None)
 
 
 def frame_check(c, bdump, ddump, stats):
@@ -1274,7 +1327,8 @@ def run(res, tier, seed, proof):
              "deviating modules); deviation paths that leave out or misplace the input/output step below an rpc or action; "
              "deviations in (sub)modules found only through the search path (ops D), compared with reading everything explicitly; "
              "two revisions of the deviated module with pinned and unpinned imports, each revision compared with the run that "
-             "determines it by construction.  Each case: model-vs-implementation, frame against the run without the deviating modules, "
+             "determines it by construction; deviation paths that drop a choice or case step; deviations written in an included "
+             "submodule whose imports / belongs-to prefix differ from (or clash with) those of the including module.  Each case: model-vs-implementation, frame against the run without the deviating modules, "
              "extracted reference applied to the undeviated dump",
         exhaustive=False, mismatches=nviol,
         distribution=dict(hist, groups=groups, **stats),
@@ -1355,7 +1409,7 @@ def replay(rep, res):
         return 1 if nviol else 0
     sc = c0["schema"]
     devnames = set(c0.get("dev") or [])
-    if c0["info"].get("g") == "random-schema":
+    if c0.get("schema_style") or c0["info"].get("g") == "random-schema":
         c = dict(base=None, dev=None, schema=sc, opts=c0["opts"], info=dict(c0["info"]))
     else:
         c = dict(base=[m for m in sc if m["name"] not in devnames], dev=[m for m in sc if m["name"] in devnames],
